@@ -1167,7 +1167,7 @@ mod gen {
 
     pub fn generate(tier: Tier, rng: &mut Rng, emit: &mut dyn FnMut(String)) {
         let (full_len, core_len, random_n, stack_n) = match tier {
-            Tier::Quick => (2, 4, 60_000, 3_000),
+            Tier::Quick => (2, 4, 240_000, 12_000),
             Tier::Thorough => (3, 5, 1_500_000, 60_000),
         };
         // ---- exhaustive programs
